@@ -50,7 +50,8 @@ View == vars
 
 CoinSeq(m) == LET ids == SetToSeq(DOMAIN m) IN [i \in DOMAIN ids |-> [id |-> ids[i], cov |-> m[ids[i]].cov, val |-> m[ids[i]].val, denom |-> m[ids[i]].denom,
                                                                            data |-> m[ids[i]].data, h |-> m[ids[i]].h]]
-St == [net |-> 2, height |-> height, feePool |-> feePool, tips |-> tips, feeMult |-> feeMult, dosc |-> N(1000000), coins |-> CoinSeq(cm),
+MCNet == 2
+St == [net |-> MCNet, height |-> height, feePool |-> feePool, tips |-> tips, feeMult |-> feeMult, dosc |-> N(1000000), coins |-> CoinSeq(cm),
        counts |-> <<>>, pools |-> <<>>, stakes |-> <<>>, txset |-> SetToSeq(txset), hist |-> <<>>, unknown |-> <<>>, unknownPools |-> <<>>]
 Hdr0 == [net |-> 2, prevb |-> <<>>, height |-> 0, histb |-> <<>>, coinsb |-> <<>>, txsb |-> <<>>, feePool |-> Zero, feeMult |-> Zero, dosc |-> Zero, poolsb |-> <<>>, stakesb |-> <<>>]
 Names == {"T", "F", "I0", DESTROY_COV, "MEL", "SYM", "ERG"} \cup {"C:" \o t : t \in TxIds}
@@ -96,7 +97,7 @@ NextUnsealed ==
 
 Init == /\ cm = [k \in {<<"gen", 0>>} |-> [cov |-> "T", val |-> N(3), denom |-> "MEL", data |-> <<>>, h |-> 0]]
         /\ feePool = N(5) /\ tips = Zero /\ feeMult = N(FeeMultInit) /\ txset = {} /\ height = 0 /\ phase = "unsealed"
-        /\ last = [act |-> "init", b |-> <<>>, ok |-> TRUE, pre |-> [net |-> 2]]
+        /\ last = [act |-> "init", b |-> <<>>, ok |-> TRUE, pre |-> [net |-> MCNet]]
 Next == \/ \E b \in Batches : ApplyBatch(b)
         \/ \E a \in BOOLEAN : DoSeal(a)
         \/ NextUnsealed
